@@ -660,7 +660,7 @@ def gen_items(rng, bound, count=None):
 def gen_data(rng, big):
     sizes = [0, 0, 1, 2, 17, 255, 256, 1000]
     if big:
-        sizes = [4096, 10000]
+        sizes = [4096, 4099, 6000]
     size = rng.choice(sizes)
     if size <= 17:
         return bytes(rng.randrange(256) for _ in range(size))
@@ -760,7 +760,7 @@ def long_streams(chk):
     return out
 
 
-def directed_cuts(chk, frames, size_limit_all=400):
+def directed_cuts(chk, frames, size_limit_all=400, light=False):
     ''' Boundary-directed cuts of a long stream: list of (tag, lens). '''
     rng = chk.rng
     bounds = []
@@ -781,7 +781,7 @@ def directed_cuts(chk, frames, size_limit_all=400):
     cuts.append(('field-boundaries-1', lens_from_points([p - 1 for p in bounds + msg_ends], size)))
     cuts.append(('field-boundaries+1', lens_from_points([p + 1 for p in bounds + msg_ends], size)))
     allb = sorted(set(bounds + msg_ends))
-    for point in allb[:: max(1, len(allb) // (6 if chk.quick() else 12))]:
+    for point in ([] if light else allb[:: max(1, len(allb) // (6 if chk.quick() else 12))]):
         cuts.append(('two-reads@boundary', lens_from_points([point], size)))
         cuts.append(('two-reads@boundary-1', lens_from_points([point - 1], size)))
         cuts.append(('two-reads@boundary+1', lens_from_points([point + 1], size)))
@@ -791,7 +791,7 @@ def directed_cuts(chk, frames, size_limit_all=400):
         # one-octet reads across every boundary, big reads in between
         pts = []
         for point in allb:
-            pts += [point - 2, point - 1, point, point + 1, point + 2]
+            pts += [point - 1, point, point + 1] if light else [point - 2, point - 1, point, point + 1, point + 2]
         cuts.append(('one-octet-reads-around-boundaries', lens_from_points(pts, size)))
     for _ in range(2 if chk.quick() else 6):
         npts = rng.randrange(1, 12)
@@ -1125,7 +1125,7 @@ def run_framing_long(chk, run, jobs, sizes):
     futs = []
     for (sidx, (tag, frames)) in enumerate(specs):
         (parts, flat) = stream_parts(frames)
-        (size, cuts) = directed_cuts(chk, frames)
+        (size, cuts) = directed_cuts(chk, frames, light=(tag == 'long-bigdata' and chk.quick()))
         assert size == len(flat)
         for (ctag, lens) in cuts:
             plan.append((tag, frames, parts, flat, ctag, lens))
@@ -1346,7 +1346,9 @@ def session_case(chk, run, obj):
     chk.case(('session', json.dumps(obj, sort_keys=True)), nontrivial=len(obj['chunkings']) > 1,
              sample=dict(suite='session', chunkings=obj['chunkings'], observed=outs))
     chk.count('session_schedules', len(outs))
-    differ = any(out != outs[0] for out in outs[1:])
+    # octets left unread once the connection is closed are not an observation
+    key = [(out['frames'], out['closed'], out['escaped'], None if out['closed'] else out['kept']) for out in outs]
+    differ = any(ent != key[0] for ent in key[1:])
     if differ:
         terminating = any(step[0] == 'term' for step in obj['setup'])
         sig = KNOWN_IDLE_SIG if terminating else 'C07 / session / frames acted on depend on the chunking (endpoint not terminating)'
